@@ -1229,7 +1229,16 @@ def jnp_hstack(items):
     return jnp_concatenate(items, 1)
 
 
+def _only_immaterial(name, kw, allowed=()):
+    """keywords that change the result must not be silently ignored by a model: anything but dtype-like keywords is outside the
+    vocabulary (inconclusive), never dropped"""
+    extra = [k_ for k_, v_ in kw.items() if k_ not in allowed and k_ not in ('dtype', 'out', 'precision', 'promote_integers') and v_ is not None]
+    if extra:
+        raise Top(f"{name} with keyword(s) {sorted(extra)}")
+
+
 def _reduce_kd(a, axis, kind, keepdims=False, **kw):
+    _only_immaterial(kind.lower(), kw)               # where= / initial= change the value
     r = _reduce(a, axis, kind)
     if keepdims:
         a = to_at(a)
@@ -1629,6 +1638,7 @@ def _as_count(r):
 
 
 def jnp_repeat(a, repeats, axis=None, **kw):
+    _only_immaterial('repeat', kw)                  # total_repeat_length pads / truncates
     a = to_at(a)
     if axis is None:
         raise Top("repeat without axis")
@@ -2025,6 +2035,7 @@ def _multi_argnums(maker, f, argnums, kw):
 
 
 def jax_grad(f, argnums=0, **kw):
+    _only_immaterial('grad', kw, allowed=('holomorphic', 'allow_int'))          # has_aux changes what is returned
     if isinstance(argnums, (tuple, list)):
         return _multi_argnums(jax_grad, f, argnums, kw)
 
@@ -2049,6 +2060,7 @@ def jax_grad(f, argnums=0, **kw):
 
 
 def jax_jac(f, argnums=0, **kw):
+    _only_immaterial('jacobian', kw, allowed=('holomorphic', 'allow_int'))
     if isinstance(argnums, (tuple, list)):
         return _multi_argnums(jax_jac, f, argnums, kw)
 
@@ -2064,6 +2076,7 @@ def jax_jac(f, argnums=0, **kw):
 
 
 def jax_hessian(f, argnums=0, **kw):
+    _only_immaterial('hessian', kw, allowed=('holomorphic',))
     def h(*args):
         k = _argnum(argnums)
         val, vs, axes, tag = _tagged_call(f, args, k)
@@ -2083,6 +2096,7 @@ def jax_hessian(f, argnums=0, **kw):
 
 
 def jax_jvp(f, primals, tangents, **kw):
+    _only_immaterial('jvp', kw)
     if len(primals) != 1 or len(tangents) != 1:
         raise Top("jvp with several primals")
     x, v = to_at(primals[0]), to_at(tangents[0])
@@ -2115,6 +2129,7 @@ def jax_jvp(f, primals, tangents, **kw):
 
 
 def lax_scan(f, init, xs, **kw):
+    _only_immaterial('scan', kw, allowed=('unroll', '_split_transpose'))      # length / reverse change the iteration
     outs = []
     c = init
     if isinstance(xs, AT):
